@@ -1,4 +1,5 @@
 import OntVerif.Proofs.AddBlock
+import OntVerif.Gen.AddBlockOrder
 /-!
 # C39 — Invalid blocks are rejected without changing the ledger
 
@@ -223,6 +224,54 @@ theorem C39_signatures_sufficient (P : Prims) (h : Hdr)
 theorem C39_retry (v P b sr l b' sr') (h : (addBlock v P b sr l).1 ≠ .added) :
     addBlock v P b' sr' (addBlock v P b sr l).2 = addBlock v P b' sr' l := by
   rw [C39_reject_noop v P b sr l h]
+
+/-! ### the order of the model's guards and effects is the order of the statements in the source
+
+`Gen/AddBlockOrder.lean` is regenerated from `ledger_store.go` on every run (go/ast): the top-level statements of `AddBlock`,
+`SubmitBlock`, `AddHeader`, `saveBlock`, `submitBlock` as events — `guard` / `errguard` / `stop` / `write` (a call from which a
+store-writing method or an in-memory mutator is reachable) / `call`.  The theorems below stop checking when a validation is moved
+behind a write in the source, or when the source's guard sequence no longer is the model's. -/
+section source
+open OntVerif.Gen.AddBlockOrder
+
+/-- no `guard` / `stop` (a validation of the block) after the first `write`; `errguard`s after a write only propagate the I/O error
+of the write itself -/
+def validationsFirst : List (String × String) → Bool
+  | [] => true
+  | e :: r => if e.1 = "write" then r.all (fun x => x.1 ≠ "guard" ∧ x.1 ≠ "stop") else validationsFirst r
+
+theorem C39_source_validations_first :
+    validationsFirst addBlock = true ∧ validationsFirst submitBlockPublic = true ∧ validationsFirst addHeader = true
+      ∧ validationsFirst saveBlock = true ∧ validationsFirst submitBlock = true ∧ verifyHeaderStoreWrites = [] := by
+  decide
+
+/-- the guard texts of an event list -/
+def guardTexts (evs : List (String × String)) : List String :=
+  (evs.filter (fun e => e.1 = "guard" ∨ e.1 = "stop" ∨ e.1 = "errguard")).map (·.2)
+
+def notEffectSites (ss : List Step) : List String := (ss.filter (fun s => !s.isEffect)).map Step.site
+
+/-- the model's guards are the source's guards, in the same order: `AddBlock` up to `verifyHeader` (the cross-chain-message block
+is outside the model), then `saveBlock`, then the single validation of `submitBlock`; `SubmitBlock` likewise -/
+theorem C39_source_guard_order (P : Prims) (b : Block) (sr : Hash) :
+    notEffectSites (addBlockSteps .asShipped P b sr)
+      = (guardTexts addBlock).take 2 ++ notEffectSites (verifyHeaderSteps P b.hdr) ++ guardTexts saveBlock
+          ++ (guardTexts submitBlock).take 1
+    ∧ (guardTexts addBlock).drop 2 = ["verifyHeader", "ccMsg.Height != currBlockHeight", "ccMsg.Version != types.CURR_CROSS_STATES_VERSION",
+          "GetCrossStatesRoot", "root != ccMsg.StatesRoot", "verifyCrossChainMsg", "saveBlock"]
+    ∧ (submitBlock.filter (fun e => e.1 = "guard" ∨ e.1 = "stop")).length = 1
+    ∧ (guardTexts submitBlockPublic).take 3 = ["this.closing", "blockHeight <= currBlockHeight", "blockHeight != nextBlockHeight"]
+    ∧ (guardTexts addHeader).take 1 = notEffectSites ((addHeaderSteps P b.hdr).take 1) := by
+  have e1 : (guardTexts addBlock).take 2 = ["blockHeight <= currBlockHeight", "blockHeight != nextBlockHeight"] := by decide
+  have e2 : guardTexts saveBlock = ["blockHeight > 0 && blockHeight <= this.GetCurrentBlockHeight()", "this.closing",
+      "blockHeight > 0 && blockHeight != (this.GetCurrentBlockHeight()+1)", "executeBlock",
+      "len(block.Transactions) != 0 && result.MerkleRoot != stateMerkleRoot"] := by decide
+  have e3 : (guardTexts submitBlock).take 1 = ["block.Header.Height != 0 && blockRoot != block.Header.BlockRoot"] := by decide
+  have e4 : (guardTexts addHeader).take 1 = ["header.Height != nextHeaderHeight"] := by decide
+  refine ⟨?_, by decide, by decide, by decide, ?_⟩
+  · rw [e1, e2, e3]; rfl
+  · rw [e4]; rfl
+end source
 
 /-! ### Non-vacuity: concrete chain, valid block added, each mutated field refused -/
 section examples
